@@ -373,8 +373,13 @@ def run_workloads(ctx, spec, only=None):
 
 def _run_workloads(ctx, spec, only=None):
     si, sn = ctx.shard
+    dev_only = os.environ.get('PVM_ONLY')       # development aid: restrict to some workloads (never used by registered commands)
+    if dev_only and 'PVM_EVID_DIR' not in os.environ:
+        raise SystemExit('PVM_ONLY needs PVM_EVID_DIR (partial runs must not overwrite the evidence)')
     for wl in spec['workloads']:
         if only and wl.name != only[0]:
+            continue
+        if dev_only and wl.name not in dev_only.split(','):
             continue
         n = wl.count(ctx.tier)
         if only:
